@@ -16,6 +16,14 @@ package util
 //@   safety
 //@   ensures baseURL == "" ==> res == pathOrURL
 //@   ensures baseURL != "" && pathOrURL == "" ==> res == baseURL
+// C16: a relative path is resolved UNDER the base: same scheme and host as the parsed base URL, path = the base's path
+// joined with the relative path (ghost locals remember the parsed base just before the join); an absolute URL or an
+// unparsable base is handed back unchanged
+//@   at call Join 1 bind basePath0 = base.Path
+//@   at call Join 1 bind baseHost0 = base.Host
+//@   at call Join 1 bind baseScheme0 = base.Scheme
+//@   at return 3 assert parsed != nil
+//@   at return 5 assert base.Path == pathJoin(basePath0, pathOrURL) && base.Host == baseHost0 && base.Scheme == baseScheme0
 
 // the client identity used for rate limiting when proxy headers are not trusted: the host part of the peer address
 //@ spec func hostOfAddr(a string) string = ite(purecall("net.SplitHostPort#2", "error", a) == nil, purecall("net.SplitHostPort", "string", a), a)
